@@ -93,7 +93,7 @@ func genCases(r *rand.Rand, n int) []Case {
 	mk := func(ti, pi int) Case {
 		return Case{Targets: targetSets[ti], Plugins: pluginSets[pi],
 			Kind: []string{"invoke", "invoke", "resume", "notify"}[r.Intn(4)], Plugin: []string{"success", "success", "failure", "error", "full"}[r.Intn(5)],
-			Http: []int{200, 200, 500, 404, 0}[r.Intn(5)]}
+			Http: []int{200, 200, 500, 404, 0, 300, 304, 201, 308, 399, 400}[r.Intn(11)]}
 	}
 	// the whole cross product {tags, stored bytes, no tag} x target tables x plugin sets first (kind / transport answer drawn at random) ...
 	distinctPlugins := []int{0, 3, 4, 5}
